@@ -36,7 +36,7 @@ pub fn def() -> PropDef {
             "the transport is an in-memory duplex stream; QUIC stream semantics (finish/stopped) are outside",
         ],
         bound: |t| match t {
-            Tier::Quick => json!({"A": "scripts <= 3 steps over 12 choices; rejects on scripts starting with a correct Init", "B": "scripts <= 3 steps over 11 choices", "C": "2 state pairs x 2 sides x 3 faults x every k"}),
+            Tier::Quick => json!({"A": "scripts <= 4 steps over 12 choices; rejects on scripts starting with a correct Init", "B": "scripts <= 4 steps over 11 choices", "C": "2 state pairs x 2 sides x 3 faults x every k"}),
             Tier::Thorough => json!({"A": "scripts <= 5 steps", "B": "scripts <= 5 steps", "C": "4 state pairs x 2 sides x 3 faults x every k"}),
         },
         run,
@@ -1246,7 +1246,7 @@ fn one(report: &mut Report, case: Case, nontrivial: bool, ordinal: u64) {
 fn run(ctx: &Ctx, report: &mut Report) {
     crate::util::silence_panics();
     let mut ordinal = 0u64;
-    let depth = if ctx.quick() { 3 } else { 5 };
+    let depth = if ctx.quick() { 4 } else { 5 };
     // (A)
     for d in 1..=depth {
         for_each_sequence(ALICE_MENU.len(), d, |seq| {
